@@ -3,6 +3,7 @@ package interp
 import (
 	"fmt"
 	"go/constant"
+	"go/token"
 	"log"
 	"math"
 	"path/filepath"
@@ -988,6 +989,10 @@ func (interp *Interpreter) cfg(root *node, sc *scope, importPath, pkgName string
 				n.typ.TypeOf()       // Force compute of reflection type.
 				constOp[n.action](n) // Compute a constant result now rather than during exec.
 			}
+			if !n.rval.IsValid() && c0.rval.IsValid() && c1.rval.IsValid() && isComparisonAction(n.action) && inConstDecl(n) {
+				// The value of a constant declared from a comparison must be known at compile time.
+				compareConst(n)
+			}
 			switch {
 			case n.rval.IsValid():
 				// This operation involved constants, and the result is already computed
@@ -1829,6 +1834,14 @@ func (interp *Interpreter) cfg(root *node, sc *scope, importPath, pkgName string
 			setFNext(n.child[0], n)
 			n.child[1].tnext = n
 			n.typ = n.child[0].typ
+			if c0, c1 := n.child[0], n.child[1]; c0.rval.IsValid() && c1.rval.IsValid() && inConstDecl(n) {
+				// The value of a constant declared from a logical expression must be known at compile time.
+				if n.rval.IsValid() || logicalConst(n) {
+					n.gen = nop
+					n.findex = notInFrame
+					break
+				}
+			}
 			n.findex = sc.add(n.typ)
 			if n.start.action == aNop {
 				n.start.gen = branch
@@ -1852,6 +1865,14 @@ func (interp *Interpreter) cfg(root *node, sc *scope, importPath, pkgName string
 			setFNext(n.child[0], n.child[1].start)
 			n.child[1].tnext = n
 			n.typ = n.child[0].typ
+			if c0, c1 := n.child[0], n.child[1]; c0.rval.IsValid() && c1.rval.IsValid() && inConstDecl(n) {
+				// The value of a constant declared from a logical expression must be known at compile time.
+				if n.rval.IsValid() || logicalConst(n) {
+					n.gen = nop
+					n.findex = notInFrame
+					break
+				}
+			}
 			n.findex = sc.add(n.typ)
 			if n.start.action == aNop {
 				n.start.gen = branch
@@ -2691,6 +2712,85 @@ func getVarDependencies(nod *node, sc *scope) (deps []*node) {
 	}
 	walk(nod, true)
 	return deps
+}
+
+// inConstDecl returns true if the expression node n is part of a constant declaration.
+func inConstDecl(n *node) bool {
+	for a := n.anc; a != nil; a = a.anc {
+		switch a.kind {
+		case binaryExpr, unaryExpr, parenExpr, landExpr, lorExpr, callExpr:
+			continue
+		case defineStmt:
+			return a.anc != nil && a.anc.kind == constDecl
+		}
+		return false
+	}
+	return false
+}
+
+// constOperand returns the constant value of a constant operand node.
+func constOperand(n *node) (c constant.Value, ok bool) {
+	v := n.rval
+	if !v.IsValid() {
+		return nil, false
+	}
+	if c = vConstantValue(v); c != nil {
+		return c, true
+	}
+	switch v.Kind() {
+	case reflect.Bool:
+		return constant.MakeBool(v.Bool()), true
+	case reflect.Int, reflect.Int8, reflect.Int16, reflect.Int32, reflect.Int64:
+		return constant.MakeInt64(v.Int()), true
+	case reflect.Uint, reflect.Uint8, reflect.Uint16, reflect.Uint32, reflect.Uint64, reflect.Uintptr:
+		return constant.MakeUint64(v.Uint()), true
+	case reflect.Float32, reflect.Float64:
+		return constant.MakeFloat64(v.Float()), true
+	case reflect.String:
+		return constant.MakeString(v.String()), true
+	}
+	return nil, false
+}
+
+// compareConst computes the result of a comparison of constants.
+func compareConst(n *node) {
+	v0, ok0 := constOperand(n.child[0])
+	v1, ok1 := constOperand(n.child[1])
+	if !ok0 || !ok1 || v0.Kind() == constant.Unknown || v1.Kind() == constant.Unknown {
+		return
+	}
+	tok := map[action]token.Token{aEqual: token.EQL, aNotEqual: token.NEQ, aGreater: token.GTR, aGreaterEqual: token.GEQ, aLower: token.LSS, aLowerEqual: token.LEQ}[n.action]
+	if v0.Kind() == constant.Complex || v1.Kind() == constant.Complex {
+		if tok != token.EQL && tok != token.NEQ {
+			return
+		}
+	}
+	if (v0.Kind() == constant.Bool) != (v1.Kind() == constant.Bool) || (v0.Kind() == constant.String) != (v1.Kind() == constant.String) {
+		return
+	}
+	// An untyped operand must be representable in the type of a typed one, leave the error to the type check.
+	if t0, t1 := n.child[0].typ, n.child[1].typ; t0.untyped != t1.untyped {
+		if t0.untyped && !representableConst(v0, t1.TypeOf()) || t1.untyped && !representableConst(v1, t0.TypeOf()) {
+			return
+		}
+	}
+	n.rval = reflect.ValueOf(constant.Compare(v0, tok, v1))
+}
+
+// logicalConst computes the result of a logical && or || of boolean constants. It returns false if not possible.
+func logicalConst(n *node) bool {
+	v0, ok0 := constOperand(n.child[0])
+	v1, ok1 := constOperand(n.child[1])
+	if !ok0 || !ok1 || v0.Kind() != constant.Bool || v1.Kind() != constant.Bool {
+		return false
+	}
+	b0, b1 := constant.BoolVal(v0), constant.BoolVal(v1)
+	if n.kind == landExpr {
+		n.rval = reflect.ValueOf(b0 && b1)
+	} else {
+		n.rval = reflect.ValueOf(b0 || b1)
+	}
+	return true
 }
 
 // setFnext sets the cond fnext field to next, propagates it for parenthesis blocks
